@@ -1,23 +1,30 @@
 P = "github.com/tochemey/goakt/v4/actor."
 SUB = {"(*" + P + "PID).doStop": P + "vC12_doStop"}
 MO = {"replay": "model-only"}
+EV = [0, 1, 2, 3, 4, 5]
 CHECK = {
     "id": "C12",
     "packages": ["./actor"],
     "harness": ["actor/zz_verif_c12.go"],
     "entries": [
         dict(MO, fn=P + "vC12_timeInit"),
-        dict(MO, fn=P + "vC12_timeStep", cases={"event": [0, 1, 2, 3, 4, 5], "entry": [0, 1, 2]}),
-        dict(MO, fn=P + "vC12_timeHistory2"),
+        dict(MO, fn=P + "vC12_timeStep", cases={"event": EV, "entry": [0, 1, 2]}),
+        dict(MO, fn=P + "vC12_timeHistory2", cases={"e1": EV, "e2": [5]}, tiers=("quick",), cover_optional=("passivated",)),
+        dict(MO, fn=P + "vC12_timeHistory3", cases={"e1": EV, "e2": EV}, tiers=("thorough",), cover_optional=("passivated", "reinstated")),
         dict(MO, fn=P + "vC12_race"),
         dict(MO, fn=P + "vC12_countInit"),
-        dict(MO, fn=P + "vC12_countStep", cases={"event": [0, 1, 2, 3, 4, 5], "entry": [0, 1, 2]}),
-        dict(MO, fn=P + "vC12_countHistory3"),
+        dict(MO, fn=P + "vC12_countStep", cases={"event": EV, "entry": [1, 2]}, cover_optional=("re-registered",)),
+        dict(MO, fn=P + "vC12_countHistory3", tiers=("quick",)),
+        dict(MO, fn=P + "vC12_countHistory4", tiers=("thorough",)),
         dict(MO, fn=P + "vC12_countReregister"),
         dict(MO, fn=P + "vC12_longlived"),
     ],
     "replace": [{"file": "actor/passivation_manager.go", "old": "messageTriggers: make(chan *passivationEntry, 1024),", "new": "messageTriggers: make(chan *passivationEntry, 4),"}],
-    "opts": {"unwind": 8, "substitute": SUB, "go_inline": True, "select_precise": True},
+    # trigger's retry loop spins while tryPassivation keeps refusing (actor stopping, or suspended with passivation resumed): explored
+    # for 2 iterations (refusal by the skip-next guard, then success), longer spins are assumed away (liveness, not this property)
+    "opts": {"unwind": 8, "substitute": SUB, "go_inline": True, "select_precise": True, "unwind_mode": "assume",
+             "loop_bounds": {"(*" + P + "passivationManager).trigger": 2}},
+    "timeout_ms": {"quick": 600000, "thorough": 1800000},
     "stop": list(SUB.keys()),
     "explanation": "TODO",
     "bounds": {},
